@@ -447,8 +447,16 @@ class Peer:
             elif how == 'remove_tmp':
                 tmp = b.get('_tmp')
                 if tmp and tmp in sys.path:
-                    sys.path.remove(tmp)
-                    self.import_log.append((modname, 'removed', tmp))
+                    # the entry xdoctest added for this import (not an equal one the user
+                    # already had): the last occurrence if it was appended, else the first
+                    if b.get('_index', -1) == -1:
+                        pos = len(sys.path) - 1 - sys.path[::-1].index(tmp)
+                    else:
+                        pos = sys.path.index(tmp)
+                    del sys.path[pos]
+                    # (not an entry the process had before: nothing to subtract, but the
+                    # module body did edit sys.path)
+                    self.import_log.append((modname, 'removed_tmp', tmp))
             elif how == 'dup_tmp':
                 tmp = b.get('_tmp')
                 if tmp:
